@@ -83,8 +83,8 @@ def run(ctx):
     for f in sorted(glob.glob(os.path.join(REPO, "experimental/ast/printer/testdata/format/*.proto"))
                     + glob.glob(os.path.join(REPO, "experimental/ast/printer/testdata/roundtrip/*.proto"))):
         cases.append(("corpus:" + os.path.relpath(f, REPO), open(f, "rb").read(), {}))
-    plan = [("plain", ctx.budget(60, 800)), ("plain-nocomment", ctx.budget(20, 300)), ("shuffled-plain", ctx.budget(40, 600)),
-            ("ws-adversarial", ctx.budget(80, 1500)), ("adversarial", ctx.budget(110, 3000))]
+    plan = [("plain", ctx.budget(60, 1200)), ("plain-nocomment", ctx.budget(20, 400)), ("shuffled-plain", ctx.budget(40, 900)),
+            ("ws-adversarial", ctx.budget(80, 1800)), ("adversarial", ctx.budget(110, 3600))]
     for strat, n in plan:
         for _ in range(n):
             if strat == "ws-adversarial":
